@@ -108,6 +108,32 @@ START_NS = 3600 * 10 ** 9
 
 
 # ------------------------------------------------------------------------------------------- generators
+HS_ALGS = ["HS256", "HS384", "HS512"]
+JUNK_ALGS = ["none", "RS256junk", "RS384junk", "RS512junk", "ES256junk", "ES384junk", "PS256junk", "PS512junk", "hs256lower", "noalg"]
+
+
+def gen_jwt_algs(rng):
+    """the algorithm dimension, fixed shape: every HMAC-family alg x signing secret in {current, previous, foreign} with valid time
+    claims (must be accepted iff the secret is configured), an expired one, and every non-HMAC / malformed alg variant (refused)"""
+    secret, prev = SECRETS[0], SECRETS[1]
+    toks = []
+    for alg in HS_ALGS + ["HS256typ"]:
+        for sg in SECRETS:
+            toks.append({"alg": alg, "secret": sg, "claims": {"uid": len(toks), "role": "r"}, "exp": 3600, "nbf": None, "iat": None,
+                         "mangle": "", "raw": "", "cut": 0, "expect": 1 if sg in (secret, prev) else 2})
+    for alg in HS_ALGS:
+        toks.append({"alg": alg, "secret": secret, "claims": {"uid": len(toks)}, "exp": -3600, "nbf": None, "iat": None,
+                     "mangle": "", "raw": "", "cut": 0, "expect": 2})
+    for alg in JUNK_ALGS:
+        toks.append({"alg": alg, "secret": rng.choice([secret, prev]), "claims": {"uid": len(toks)}, "exp": 3600, "nbf": None, "iat": None,
+                     "mangle": "", "raw": "", "cut": 0, "expect": 2})
+    order = list(range(len(toks)))
+    rng.shuffle(order)
+    reqs = [{"tok": i, "scheme": "Bearer ", "advance": 0, "jadv": 0} for i in order + order[:8]]
+    return {"kind": "jwt", "secret": secret, "prev": prev, "secrets": SECRETS, "callback": rng.choice(["none", "observe"]),
+            "probe": sorted(REGISTERED + ["uid", "role"]), "tokens": toks, "reqs": reqs}
+
+
 def _gen_tokens(rng, secret, prev):
     toks = []
     pool = [("uid", [1, 7, 123456789012, 1.5]), ("name", ["alice", "bob", ""]), ("role", ["admin", "user"]),
@@ -116,7 +142,7 @@ def _gen_tokens(rng, secret, prev):
             ("list", [[1, "two"], []]), ("expx", ["almost"]), ("i", [0])]
     for _ in range(rng.randint(2, 7)):
         r = rng.random()
-        alg = "HS256" if r < 0.6 else (rng.choice(["HS384", "HS512"]) if r < 0.86 else rng.choice(["none", "RS256junk"]))
+        alg = "HS256" if r < 0.6 else (rng.choice(["HS384", "HS512"]) if r < 0.86 else rng.choice(JUNK_ALGS))
         claims = {}
         for k, vals in rng.sample(pool, rng.randint(0, 5)):
             claims[k] = rng.choice(vals)
@@ -622,6 +648,7 @@ def gen_rpcn(rng):
 def generate(rng, tier, n):
     cases = []
     if tier != "search":
+        cases.append(gen_jwt_algs(rng))
         for strict in (True, False):
             c = gen_rpc_outage(rng)
             c["strict"] = strict
@@ -714,6 +741,8 @@ def search(rng, problems):
             out.append(c)
     for _ in range(20):
         out.append(gen_ejwt(rng))
+    for _ in range(3):
+        out.append(gen_jwt_algs(rng))
     for strict in (True, True, False):
         c = gen_rpc_outage(rng)
         c["strict"] = strict
@@ -830,7 +859,8 @@ def enc_jwt(case, obs):
     for rq, r in zip(case["reqs"], obs["rows"]):
         now += rq["advance"] * 10 ** 9
         ctx = clist([cpair(cstr(k), cN(intern(r["ctx"][k]))) for k in sorted(r["ctx"].keys())])
-        rows.append("(mkjrow %s %s %s %s %s %s %s)" % (cZ(now), cZ(r["jt"]), cN(r["header"] + 1), cZ(r["status"]), cbool(r["ran"]), ctx, cbool(r["cb"])))
+        exp = case["tokens"][rq["tok"]].get("expect", 0) if rq["tok"] >= 0 and rq["scheme"] == "Bearer " and rq.get("jadv", 0) == 0 else 0
+        rows.append("(mkjrow %s %s %s %s %s %s %s %s)" % (cZ(now), cZ(r["jt"]), cN(r["header"] + 1), cZ(r["status"]), cbool(r["ran"]), ctx, cbool(r["cb"]), cN(exp)))
     cb = {"none": "CbNone", "observe": "CbSilent", "status": "(CbStatus 418%Z)"}[case["callback"]]
     return "CJwt (mkjc %s %s %s %s %s %s)" % (cN(SID[case["secret"]]), cN(SID[case["prev"]]), cb, cZ(START_NS), table, clist(rows))
 
@@ -1101,6 +1131,11 @@ def bucket(case, obs):
                 out.append("parser:" + ("accept" if r["ok"] else "refuse"))
         else:
             out.append("jwt:callback=" + case["callback"])
+            for rq, r in zip(case["reqs"], obs["rows"]):
+                if rq["tok"] >= 0 and "expect" in case["tokens"][rq["tok"]]:
+                    t = case["tokens"][rq["tok"]]
+                    who = "current" if t["secret"] == case["secret"] else ("previous" if t["secret"] == case["prev"] else "foreign")
+                    out.append("jwt:alg=%s:%s%s:%d" % (t["alg"], who, ":expired" if (t["exp"] or 0) < 0 else "", r["status"]))
             for r in obs["rows"]:
                 out.append("jwt:%d" % r["status"])
             # bearer-less but valid header accepted (recorded note)
